@@ -150,7 +150,10 @@ def run_case(case):
     modname, nparent, prefix, is_dh = PROTOCOLS[proto]
     cls = getattr(importlib.import_module(modname), proto)
     xoprob = numpy.array(case["xoprob"], dtype=float)
-    pg = ring.coded_founders(case["n"], len(xoprob), xoprob, case.get("chrgrp"))
+    # "unsorted": the parental markers are stored in an order that is not (chromosome, position) ascending and the matrix is not
+    # grouped -- the progeny must carry exactly that layout over
+    pg = ring.coded_founders(case["n"], len(xoprob), xoprob, case.get("chrgrp"), group=not case.get("unsorted"),
+                             phypos=case.get("phypos"))
     if case.get("pattern") is not None:
         rng = ring.ScriptedRandomState(case["pattern"])
     else:
@@ -235,7 +238,15 @@ def gen_cases(rnd, tier):
             pat = rnd.choice(patterns)
             # several chromosomes (sorted group labels), any crossover probability at a chromosome start, exact 0 included
             chrgrp = sorted(rnd.randrange(1, 4) for _ in range(p)) if rnd.random() < 0.5 else None
-            yield dict(proto=proto, n=n, xoprob=xo, xconfig=xconfig, nmating=nm, nprogeny=npg, chrgrp=chrgrp,
+            unsorted, phypos = False, None
+            if p >= 2 and rnd.random() < 0.25:
+                unsorted = True
+                chrgrp = [rnd.randrange(1, 4) for _ in range(p)]
+                phypos = [10 * rnd.randrange(1, 50) for _ in range(p)]
+                if chrgrp == sorted(chrgrp):
+                    chrgrp = chrgrp[::-1] if chrgrp[0] != chrgrp[-1] else chrgrp
+                    phypos = sorted(phypos, reverse=True)
+            yield dict(proto=proto, n=n, xoprob=xo, xconfig=xconfig, nmating=nm, nprogeny=npg, chrgrp=chrgrp, unsorted=unsorted, phypos=phypos,
                        nself=rnd.choice([0, 0, 1, 2]), pattern=pat, seed=rnd.randrange(10 ** 6),
                        pc0=rnd.choice([0, 0, 5, 123456]), fc0=rnd.choice([0, 3]))
 
